@@ -51,7 +51,9 @@ def generate(rng, tier, index):
     thorough = tier == "thorough"
     fam_pool = EXACT_FAMS + ["variational"] * 6
     recipe = driver.gen_recipe(rng, fam_pool)
-    if recipe["family"] == "kissgp" and rng.random() < 0.7:
+    if recipe["family"] == "kissgp":
+        # dynamic grids re-grid on every call (known finding F11 of C03) which would resurface here as reference-vs-restored
+        # cache differences; the dynamic-grid buffers themselves are covered at module level by m_c18m
         recipe["grid_bounds"] = [[-0.3, 1.3]] * recipe["d"]
     var = recipe["family"] == "variational"
     kinds = dict(OPS_VAR if var else OPS_EXACT)
@@ -223,7 +225,7 @@ def restore(out, i, src_live, op, recipe, tol, phase):
             out.stats["fault:crash_restore_state_dict"] += 1
     except Exception as e:  # noqa  the mechanism yielded no model at this save point
         msg = str(e)
-        kind = "non_leaf_deepcopy" if "graph leaves" in msg else ("local_object" if "local object" in msg or "Can't pickle" in msg or "Can't get local" in msg else type(e).__name__)
+        kind = "non_leaf_deepcopy" if ("graph leaves" in msg or "view was created in no_grad mode" in msg) else ("local_object" if "local object" in msg or "Can't pickle" in msg or "Can't get local" in msg else type(e).__name__)
         out.violate("snapshot_failed", i, "%s of the model raised %s(%s) at a save point in phase %s" % (how, type(e).__name__, msg[:160], phase), exc_kind=kind, **cls)
         return None
     if how in ("pickle", "deepcopy"):
@@ -393,10 +395,12 @@ def execute(history):
                     out.stats["probe:lockstep_observation"] += 1
                     lock_obs = True
                     cls = {"family": fam, "how": last_how, "op": k}
-                    if statusA == "rejected" and statusB == "ok" and k in ("backward", "fantasize"):
-                        # the reference fails for a reason that cannot persist by nature (autograd graph state: second
-                        # backward through non-detached caches, deepcopy of non-leaf cached tensors inside get_fantasy_model)
-                        out.stats["probe:reference_rejected_restored_ok_" + k] += 1
+                    if statusA != statusB and k in ("backward", "fantasize"):
+                        # whether these two succeed depends on state that cannot persist by nature or is cache state by design:
+                        # a second backward through non-detached caches fails on whichever side still holds the graph;
+                        # get_fantasy_model deep-copies the model (fails on non-leaf cached tensors, F2/F10) and uses whatever
+                        # strategy class is cached (created under the settings of an earlier call).  Not persistence: counted.
+                        out.stats["probe:status_differs_not_judged_" + k] += 1
                     elif statusA == "ok" and statusB == "rejected" and k == "predict" and pure_rejection(recipe, B, op, obsB.get("exc")):
                         # a freshly constructed model holding B's state rejects this (input, settings) pair as well: the
                         # reference only answered from caches (e.g. more LOVE probe vectors than grid points); not persistence
